@@ -165,9 +165,12 @@ MkVal(sh, leaf, i) ==
 
 SeqsOver(n, m) == [1..n -> 1..m]      \* functions = sequences of length n over 1..m
 
+\* up to two accesses: every access kind; three accesses: the dotted-key and
+\* bracket-index kinds (with and without null-safety) to keep the family finite
+AccChoice(n) == IF n <= 2 THEN SeqsOver(n, Len(AccKinds)) ELSE [1..n -> {1, 2, 7, 8}]
 F5Desc == UNION {
    {[fam |-> "F5", acc |-> a, sh |-> s, leaf |-> lf] :
-       a \in SeqsOver(n, Len(AccKinds)), s \in SeqsOver(n, Len(Shapes)), lf \in 1..Len(Leaves)}
+       a \in AccChoice(n), s \in SeqsOver(n, Len(Shapes)), lf \in 1..Len(Leaves)}
    : n \in 1..MaxAcc}
 
 RealizeF5(d) ==
